@@ -5,7 +5,10 @@
 //! that same reader. Log lines: `<label> rec[n]: <rendered record>`, then exactly one of `<label>: done n=<count>`
 //! (the iterator ended cleanly) or `<label>: Err(kind=… msg=…)`; finally `end: EOF`.
 
-use std::io::{self, Cursor};
+use std::{
+    cell::Cell,
+    io::{self, Cursor, Read, Seek},
+};
 
 use noodles_bam as bam;
 use noodles_bcf as bcf;
@@ -16,6 +19,36 @@ use noodles_vcf as vcf;
 
 use crate as vnd;
 use crate::Format;
+
+thread_local! {
+    /// Set by the `*_over` entry points: the driver behaves like std's helpers on `ErrorKind::Interrupted` (a call
+    /// or an iterator item that fails with it is tried again).
+    static RETRY: Cell<bool> = const { Cell::new(false) };
+}
+
+const MAX_RETRIES: usize = 10_000;
+
+fn retrying() -> bool {
+    RETRY.with(|r| r.get())
+}
+
+fn is_interrupted(e: &io::Error) -> bool {
+    e.kind() == io::ErrorKind::Interrupted
+}
+
+/// Evaluates a fallible call; while retrying is on, a result of `Err(Interrupted)` makes it evaluate again.
+macro_rules! call {
+    ($e:expr) => {{
+        let mut tries = 0usize;
+        loop {
+            let r = $e;
+            match r {
+                Err(ref e) if retrying() && is_interrupted(e) && tries < MAX_RETRIES => tries += 1,
+                other => break other,
+            }
+        }
+    }};
+}
 
 pub fn regions_for(names: &[String]) -> Vec<String> {
     let mut v = Vec::new();
@@ -35,6 +68,7 @@ pub fn regions_for(names: &[String]) -> Vec<String> {
 /// Drains a query iterator (capped), rendering every record; returns false when the cap was exceeded.
 fn drain<T>(log: &mut Vec<String>, what: &str, cap: usize, ty: &str, it: impl Iterator<Item = io::Result<T>>, mut render: impl FnMut(&T) -> String) -> bool {
     let mut n = 0usize;
+    let mut retries = 0usize;
     for r in it {
         if n > cap {
             log.push(format!("end: {}{ty}", vnd::NONTERM));
@@ -42,6 +76,11 @@ fn drain<T>(log: &mut Vec<String>, what: &str, cap: usize, ty: &str, it: impl It
         }
         match r {
             Ok(rec) => log.push(format!("{what} rec[{n}]: {}", render(&rec))),
+            Err(e) if retrying() && is_interrupted(&e) && retries < MAX_RETRIES => {
+                // the caller polls the iterator again, as std's read helpers call `read` again
+                retries += 1;
+                continue;
+            }
             Err(e) => {
                 log.push(format!("{what}: {}", vnd::render_err(&e)));
                 break;
@@ -59,9 +98,9 @@ fn regions(names: &[String]) -> Vec<noodles_core::Region> {
     regions_for(names).iter().filter_map(|r| r.parse().ok()).collect()
 }
 
-fn bam_queries<I: csi::BinningIndex>(log: &mut Vec<String>, data: &[u8], index: &I, lim: &vnd::Limits, cap: usize) -> bool {
-    let mut reader = bam::io::Reader::new(Cursor::new(data));
-    let header = match reader.read_header() {
+fn bam_queries<S: Read + Seek, I: csi::BinningIndex>(log: &mut Vec<String>, src: S, index: &I, lim: &vnd::Limits, cap: usize) -> bool {
+    let mut reader = bam::io::Reader::new(src);
+    let header = match call!(reader.read_header()) {
         Ok(h) => h,
         Err(e) => {
             log.push(format!("header: {}", vnd::render_err(&e)));
@@ -70,7 +109,7 @@ fn bam_queries<I: csi::BinningIndex>(log: &mut Vec<String>, data: &[u8], index: 
     };
     let names: Vec<String> = header.reference_sequences().keys().map(|k| k.to_string()).collect();
     for region in regions(&names) {
-        match reader.query(&header, index, &region) {
+        match call!(reader.query(&header, index, &region)) {
             Err(e) => log.push(format!("query {region}: {}", vnd::render_err(&e))),
             Ok(q) => {
                 if !drain(log, &format!("query {region}"), cap, "bam::io::reader::query::Records", q.records(), |rec| vnd::render_alignment_record(&header, rec, lim)) {
@@ -79,7 +118,7 @@ fn bam_queries<I: csi::BinningIndex>(log: &mut Vec<String>, data: &[u8], index: 
             }
         }
     }
-    match reader.query_unmapped(index) {
+    match call!(reader.query_unmapped(index)) {
         Err(e) => log.push(format!("unmapped: {}", vnd::render_err(&e))),
         Ok(it) => {
             if !drain(log, "unmapped", cap, "bam::io::Reader::query_unmapped", it, |rec| vnd::render_alignment_record(&header, rec, lim)) {
@@ -90,9 +129,9 @@ fn bam_queries<I: csi::BinningIndex>(log: &mut Vec<String>, data: &[u8], index: 
     true
 }
 
-fn sam_queries<I: csi::BinningIndex>(log: &mut Vec<String>, data: &[u8], index: &I, lim: &vnd::Limits, cap: usize) -> bool {
-    let mut reader = noodles_sam::io::Reader::new(bgzf::io::Reader::new(Cursor::new(data)));
-    let header = match reader.read_header() {
+fn sam_queries<S: Read + Seek, I: csi::BinningIndex>(log: &mut Vec<String>, src: S, index: &I, lim: &vnd::Limits, cap: usize) -> bool {
+    let mut reader = noodles_sam::io::Reader::new(bgzf::io::Reader::new(src));
+    let header = match call!(reader.read_header()) {
         Ok(h) => h,
         Err(e) => {
             log.push(format!("header: {}", vnd::render_err(&e)));
@@ -101,7 +140,7 @@ fn sam_queries<I: csi::BinningIndex>(log: &mut Vec<String>, data: &[u8], index: 
     };
     let names: Vec<String> = header.reference_sequences().keys().map(|k| k.to_string()).collect();
     for region in regions(&names) {
-        match reader.query(&header, index, &region) {
+        match call!(reader.query(&header, index, &region)) {
             Err(e) => log.push(format!("query {region}: {}", vnd::render_err(&e))),
             Ok(q) => {
                 if !drain(log, &format!("query {region}"), cap, "sam::io::reader::Query", q.records(), |rec| vnd::render_alignment_record(&header, rec, lim)) {
@@ -110,7 +149,7 @@ fn sam_queries<I: csi::BinningIndex>(log: &mut Vec<String>, data: &[u8], index: 
             }
         }
     }
-    match reader.query_unmapped(index) {
+    match call!(reader.query_unmapped(index)) {
         Err(e) => log.push(format!("unmapped: {}", vnd::render_err(&e))),
         Ok(it) => {
             if !drain(log, "unmapped", cap, "sam::io::Reader::query_unmapped", it, |rec| vnd::render_alignment_record(&header, rec, lim)) {
@@ -121,9 +160,9 @@ fn sam_queries<I: csi::BinningIndex>(log: &mut Vec<String>, data: &[u8], index: 
     true
 }
 
-fn bcf_queries<I: csi::BinningIndex>(log: &mut Vec<String>, data: &[u8], index: &I, lim: &vnd::Limits, cap: usize) -> bool {
-    let mut reader = bcf::io::Reader::new(Cursor::new(data));
-    let header = match reader.read_header() {
+fn bcf_queries<S: Read + Seek, I: csi::BinningIndex>(log: &mut Vec<String>, src: S, index: &I, lim: &vnd::Limits, cap: usize) -> bool {
+    let mut reader = bcf::io::Reader::new(src);
+    let header = match call!(reader.read_header()) {
         Ok(h) => h,
         Err(e) => {
             log.push(format!("header: {}", vnd::render_err(&e)));
@@ -132,7 +171,7 @@ fn bcf_queries<I: csi::BinningIndex>(log: &mut Vec<String>, data: &[u8], index: 
     };
     let names: Vec<String> = header.contigs().keys().map(|k| k.to_string()).collect();
     for region in regions(&names) {
-        match reader.query(&header, index, &region) {
+        match call!(reader.query(&header, index, &region)) {
             Err(e) => log.push(format!("query {region}: {}", vnd::render_err(&e))),
             Ok(q) => {
                 if !drain(log, &format!("query {region}"), cap, "bcf::io::reader::query::Records", q.records(), |rec| vnd::render_variant_record(&header, rec, lim)) {
@@ -144,9 +183,9 @@ fn bcf_queries<I: csi::BinningIndex>(log: &mut Vec<String>, data: &[u8], index: 
     true
 }
 
-fn vcf_queries<I: csi::BinningIndex>(log: &mut Vec<String>, data: &[u8], index: &I, lim: &vnd::Limits, cap: usize) -> bool {
-    let mut reader = vcf::io::Reader::new(bgzf::io::Reader::new(Cursor::new(data)));
-    let header = match reader.read_header() {
+fn vcf_queries<S: Read + Seek, I: csi::BinningIndex>(log: &mut Vec<String>, src: S, index: &I, lim: &vnd::Limits, cap: usize) -> bool {
+    let mut reader = vcf::io::Reader::new(bgzf::io::Reader::new(src));
+    let header = match call!(reader.read_header()) {
         Ok(h) => h,
         Err(e) => {
             log.push(format!("header: {}", vnd::render_err(&e)));
@@ -163,7 +202,7 @@ fn vcf_queries<I: csi::BinningIndex>(log: &mut Vec<String>, data: &[u8], index: 
         }
     }
     for region in regions(&names) {
-        match reader.query(&header, index, &region) {
+        match call!(reader.query(&header, index, &region)) {
             Err(e) => log.push(format!("query {region}: {}", vnd::render_err(&e))),
             Ok(q) => {
                 if !drain(log, &format!("query {region}"), cap, "vcf::io::reader::query::Records", q.records(), |rec| vnd::render_variant_record(&header, rec, lim)) {
@@ -176,12 +215,12 @@ fn vcf_queries<I: csi::BinningIndex>(log: &mut Vec<String>, data: &[u8], index: 
 }
 
 /// Region queries of bgzipped tab-delimited text through `csi::io::IndexedReader` (the generic tabix path).
-fn indexed_text_queries<I: csi::BinningIndex>(log: &mut Vec<String>, data: &[u8], index: I, cap: usize) -> bool {
+fn indexed_text_queries<S: Read + Seek, I: csi::BinningIndex>(log: &mut Vec<String>, src: S, index: I, cap: usize) -> bool {
     use csi::io::IndexedRecord as _;
     let names: Vec<String> = index.header().map(|h| h.reference_sequence_names().iter().map(|n| n.to_string()).collect()).unwrap_or_default();
-    let mut reader = csi::io::IndexedReader::new(Cursor::new(data), index);
+    let mut reader = csi::io::IndexedReader::new(src, index);
     for region in regions(&names) {
-        match reader.query(&region) {
+        match call!(reader.query(&region)) {
             Err(e) => log.push(format!("indexed query {region}: {}", vnd::render_err(&e))),
             Ok(q) => {
                 if !drain(log, &format!("indexed query {region}"), cap, "csi::io::IndexedRecords", q, |rec| {
@@ -195,10 +234,10 @@ fn indexed_text_queries<I: csi::BinningIndex>(log: &mut Vec<String>, data: &[u8]
     true
 }
 
-fn cram_queries(log: &mut Vec<String>, data: &[u8], index: &noodles_cram::crai::Index, lim: &vnd::Limits, cap: usize) -> bool {
+fn cram_queries<S: Read + Seek>(log: &mut Vec<String>, src: S, index: &noodles_cram::crai::Index, lim: &vnd::Limits, cap: usize) -> bool {
     let repo = vnd::records::repository();
-    let mut reader = noodles_cram::io::reader::Builder::default().set_reference_sequence_repository(repo).build_from_reader(Cursor::new(data));
-    let header = match reader.read_header() {
+    let mut reader = noodles_cram::io::reader::Builder::default().set_reference_sequence_repository(repo).build_from_reader(src);
+    let header = match call!(reader.read_header()) {
         Ok(h) => h,
         Err(e) => {
             log.push(format!("header: {}", vnd::render_err(&e)));
@@ -207,7 +246,7 @@ fn cram_queries(log: &mut Vec<String>, data: &[u8], index: &noodles_cram::crai::
     };
     let names: Vec<String> = header.reference_sequences().keys().map(|k| k.to_string()).collect();
     for region in regions(&names) {
-        match reader.query(&header, index, &region) {
+        match call!(reader.query(&header, index, &region)) {
             Err(e) => log.push(format!("query {region}: {}", vnd::render_err(&e))),
             Ok(q) => {
                 if !drain(log, &format!("query {region}"), cap, "cram::io::reader::Query", q.records(), |rec| vnd::render_alignment_record(&header, rec, lim)) {
@@ -216,7 +255,7 @@ fn cram_queries(log: &mut Vec<String>, data: &[u8], index: &noodles_cram::crai::
             }
         }
     }
-    match reader.query_unmapped(&header, index) {
+    match call!(reader.query_unmapped(&header, index)) {
         Err(e) => log.push(format!("unmapped: {}", vnd::render_err(&e))),
         Ok(it) => {
             if !drain(log, "unmapped", cap, "cram::io::Reader::query_unmapped", it, |rec| vnd::render_alignment_record(&header, rec, lim)) {
@@ -230,8 +269,22 @@ fn cram_queries(log: &mut Vec<String>, data: &[u8], index: &noodles_cram::crai::
 /// Parses the index and runs region queries (and `query_unmapped` where available) of the data with it. Either
 /// side may be the mutated one.
 pub fn query_log(data_format: Format, data_set: &str, data: &[u8], index_format: Format, index_bytes: &[u8]) -> Vec<String> {
-    let lim = vnd::Limits::for_input(data.len() + index_bytes.len());
-    let cap = data.len() + index_bytes.len() + 1000;
+    query_log_src(data_format, data_set, &|| Cursor::new(data), data.len(), index_format, index_bytes)
+}
+
+/// `query_log` over an arbitrary `Read + Seek` source of the data (`mk` makes a fresh source positioned at 0; some
+/// pairs open the data twice), with the driver retrying `ErrorKind::Interrupted` the way std's helpers do: the
+/// contract of `Read` says the operation should be retried, so the log must equal the one over the plain source.
+pub fn query_log_over<S: Read + Seek>(data_format: Format, data_set: &str, mk: &dyn Fn() -> S, data_len: usize, index_format: Format, index_bytes: &[u8]) -> Vec<String> {
+    RETRY.with(|r| r.set(true));
+    let log = query_log_src(data_format, data_set, mk, data_len, index_format, index_bytes);
+    RETRY.with(|r| r.set(false));
+    log
+}
+
+fn query_log_src<S: Read + Seek>(data_format: Format, data_set: &str, mk: &dyn Fn() -> S, data_len: usize, index_format: Format, index_bytes: &[u8]) -> Vec<String> {
+    let lim = vnd::Limits::for_input(data_len + index_bytes.len());
+    let cap = data_len + index_bytes.len() + 1000;
     let mut log = Vec::new();
     macro_rules! parse {
         ($e:expr) => {
@@ -244,35 +297,35 @@ pub fn query_log(data_format: Format, data_set: &str, data: &[u8], index_format:
     let done = match (data_format, index_format) {
         (Format::Bam, Format::Bai) => {
             let index = parse!(bam::bai::io::Reader::new(index_bytes).read_index());
-            bam_queries(&mut log, data, &index, &lim, cap)
+            bam_queries(&mut log, mk(), &index, &lim, cap)
         }
         (Format::Bam, Format::Csi) => {
             let index = parse!(csi::io::Reader::new(index_bytes).read_index());
-            bam_queries(&mut log, data, &index, &lim, cap)
+            bam_queries(&mut log, mk(), &index, &lim, cap)
         }
         (Format::SamGz, Format::Csi) => {
             let index = parse!(csi::io::Reader::new(index_bytes).read_index());
-            sam_queries(&mut log, data, &index, &lim, cap)
+            sam_queries(&mut log, mk(), &index, &lim, cap)
         }
         (Format::Bcf, Format::Csi) => {
             let index = parse!(csi::io::Reader::new(index_bytes).read_index());
-            bcf_queries(&mut log, data, &index, &lim, cap)
+            bcf_queries(&mut log, mk(), &index, &lim, cap)
         }
         (Format::VcfGz, Format::Tbi) => {
             let index = parse!(tabix::io::Reader::new(index_bytes).read_index());
-            vcf_queries(&mut log, data, &index, &lim, cap) && indexed_text_queries(&mut log, data, index, cap)
+            vcf_queries(&mut log, mk(), &index, &lim, cap) && indexed_text_queries(&mut log, mk(), index, cap)
         }
         (Format::VcfGz, Format::Csi) => {
             let index = parse!(csi::io::Reader::new(index_bytes).read_index());
-            vcf_queries(&mut log, data, &index, &lim, cap) && indexed_text_queries(&mut log, data, index, cap)
+            vcf_queries(&mut log, mk(), &index, &lim, cap) && indexed_text_queries(&mut log, mk(), index, cap)
         }
         (Format::Fasta, Format::Fai) => {
-            log.extend(fasta_query_lines(data, index_bytes));
+            log.extend(fasta_query_lines(mk(), index_bytes));
             true
         }
         (Format::Cram, Format::Crai) => {
             let index = parse!(noodles_cram::crai::io::Reader::new(index_bytes).read_index());
-            cram_queries(&mut log, data, &index, &lim, cap)
+            cram_queries(&mut log, mk(), &index, &lim, cap)
         }
         (Format::Bgzf, Format::Tbi) => {
             let index = parse!(tabix::io::Reader::new(index_bytes).read_index());
@@ -280,9 +333,9 @@ pub fn query_log(data_format: Format, data_set: &str, data: &[u8], index_format:
             let mut ok = true;
             match data_set {
                 "gff.gz" => {
-                    let mut reader = noodles_gff::io::Reader::new(bgzf::io::Reader::new(Cursor::new(data)));
+                    let mut reader = noodles_gff::io::Reader::new(bgzf::io::Reader::new(mk()));
                     for region in regions(&names) {
-                        match reader.query(&index, &region) {
+                        match call!(reader.query(&index, &region)) {
                             Err(e) => log.push(format!("query {region}: {}", vnd::render_err(&e))),
                             Ok(q) => {
                                 if !drain(&mut log, &format!("query {region}"), cap, "gff::io::Reader::query", q, |rec| vnd::render_feature_record(rec, &lim)) {
@@ -294,9 +347,9 @@ pub fn query_log(data_format: Format, data_set: &str, data: &[u8], index_format:
                     }
                 }
                 "gtf.gz" => {
-                    let mut reader = noodles_gtf::io::Reader::new(bgzf::io::Reader::new(Cursor::new(data)));
+                    let mut reader = noodles_gtf::io::Reader::new(bgzf::io::Reader::new(mk()));
                     for region in regions(&names) {
-                        match reader.query(&index, &region) {
+                        match call!(reader.query(&index, &region)) {
                             Err(e) => log.push(format!("query {region}: {}", vnd::render_err(&e))),
                             Ok(q) => {
                                 if !drain(&mut log, &format!("query {region}"), cap, "gtf::io::Reader::query", q, |rec| vnd::render_feature_record(rec, &lim)) {
@@ -309,7 +362,7 @@ pub fn query_log(data_format: Format, data_set: &str, data: &[u8], index_format:
                 }
                 _ => {}
             }
-            ok && indexed_text_queries(&mut log, data, index, cap)
+            ok && indexed_text_queries(&mut log, mk(), index, cap)
         }
         _ => true,
     };
@@ -323,7 +376,7 @@ pub fn query_log(data_format: Format, data_set: &str, data: &[u8], index_format:
 /// Region queries of a plain FASTA through `fasta::io::IndexedReader` with the given fai, plus `fai::Index::query`
 /// itself. The regions come from the index: per name the whole sequence, its first bases, the last two positions
 /// the index claims, and a range past the claimed end.
-fn fasta_query_lines(data: &[u8], fai_bytes: &[u8]) -> Vec<String> {
+fn fasta_query_lines<S: Read + Seek>(src: S, fai_bytes: &[u8]) -> Vec<String> {
     use noodles_fasta as fasta;
     let index = match fasta::fai::io::Reader::new(fai_bytes).read_index() {
         Ok(i) => i,
@@ -342,14 +395,14 @@ fn fasta_query_lines(data: &[u8], fai_bytes: &[u8]) -> Vec<String> {
     }
     regions.push("nosuchref".into());
     let mut log = Vec::new();
-    let mut reader = fasta::io::IndexedReader::new(Cursor::new(data), index.clone());
+    let mut reader = fasta::io::IndexedReader::new(io::BufReader::new(src), index.clone());
     for r in regions {
         let Ok(region) = r.parse::<noodles_core::Region>() else { continue };
         match index.query(&region) {
             Ok(pos) => log.push(format!("fai query {region}: offset={pos}")),
             Err(e) => log.push(format!("fai query {region}: {}", vnd::render_err(&e))),
         }
-        match reader.query(&region) {
+        match call!(reader.query(&region)) {
             Ok(rec) => log.push(format!("fasta {region}: {}", vnd::drive::render_fasta_record(rec.name(), rec.description().map(|d| d.as_ref()), rec.sequence().as_ref()))),
             Err(e) => log.push(format!("fasta {region}: {}", vnd::render_err(&e))),
         }
@@ -360,6 +413,18 @@ fn fasta_query_lines(data: &[u8], fai_bytes: &[u8]) -> Vec<String> {
 /// Region queries of a bgzipped FASTA through `fasta::io::IndexedReader` over `bgzf::io::IndexedReader` (fai + gzi of
 /// the complete file). One line per region: `fasta <region>: name=… seq=…` or `fasta <region>: Err(…)`.
 pub fn fasta_gz_query_log(data: &[u8], fai_bytes: &[u8], gzi_bytes: &[u8]) -> Vec<String> {
+    fasta_gz_query_log_src(Cursor::new(data), fai_bytes, gzi_bytes)
+}
+
+/// `fasta_gz_query_log` over an arbitrary source, retrying `Interrupted` (see `query_log_over`).
+pub fn fasta_gz_query_log_over<S: Read + Seek>(src: S, fai_bytes: &[u8], gzi_bytes: &[u8]) -> Vec<String> {
+    RETRY.with(|r| r.set(true));
+    let log = fasta_gz_query_log_src(src, fai_bytes, gzi_bytes);
+    RETRY.with(|r| r.set(false));
+    log
+}
+
+fn fasta_gz_query_log_src<S: Read + Seek>(src: S, fai_bytes: &[u8], gzi_bytes: &[u8]) -> Vec<String> {
     use noodles_fasta as fasta;
     let fai = match fasta::fai::io::Reader::new(fai_bytes).read_index() {
         Ok(i) => i,
@@ -370,7 +435,7 @@ pub fn fasta_gz_query_log(data: &[u8], fai_bytes: &[u8], gzi_bytes: &[u8]) -> Ve
         Err(e) => return vec![vnd::end_err(&e)],
     };
     let names: Vec<String> = fai.as_ref().iter().map(|r| r.name().to_string()).collect();
-    let inner = fasta::io::BufReader::Bgzf(bgzf::io::IndexedReader::new(Cursor::new(data), gzi));
+    let inner = fasta::io::BufReader::Bgzf(bgzf::io::IndexedReader::new(src, gzi));
     let mut reader = fasta::io::IndexedReader::new(inner, fai);
     let mut log = Vec::new();
     let mut regions = Vec::new();
@@ -381,7 +446,7 @@ pub fn fasta_gz_query_log(data: &[u8], fai_bytes: &[u8], gzi_bytes: &[u8]) -> Ve
     }
     for r in regions {
         let Ok(region) = r.parse::<noodles_core::Region>() else { continue };
-        match reader.query(&region) {
+        match call!(reader.query(&region)) {
             Ok(rec) => log.push(format!("fasta {region}: {}", vnd::drive::render_fasta_record(rec.name(), rec.description().map(|d| d.as_ref()), rec.sequence().as_ref()))),
             Err(e) => log.push(format!("fasta {region}: {}", vnd::render_err(&e))),
         }
